@@ -178,6 +178,8 @@ type c15Case struct {
 	Workers   [][]c15Req `json:"workers"`
 	Rounds    int        `json:"rounds"`
 	Registry   *c15RegSpec `json:"registry,omitempty"`
+	Setup      []c15Req  `json:"setup,omitempty"`    // run one after the other before the workers start (e.g. create sibling models)
+	Baseline   bool      `json:"baseline"`           // first answer every distinct worker request once, sequentially (w = -1): the reference
 	RealLLM    bool      `json:"real_llm"`  // runners are REAL llm.llmServer objects talking to a fake runner endpoint
 	Parallel   int       `json:"parallel"`  // OLLAMA_NUM_PARALLEL (requests one runner serves concurrently)
 	TimeoutMs  int       `json:"timeout_ms"`  // per request (default 3000)
@@ -194,6 +196,28 @@ type c15Resp struct {
 	Models []string `json:"models,omitempty"` // for /api/ps
 	Err    string   `json:"err,omitempty"`
 	Integrity string `json:"integrity,omitempty"` // real_llm: did the request get exactly its own stream
+	Key       string `json:"key,omitempty"`       // baseline cases: method path body
+	Digest    string `json:"digest,omitempty"`    // baseline cases: what the answer says about the model (status, error text, capabilities)
+}
+
+// c15Digest: the part of an answer that must not depend on what other requests are doing
+func c15AnswerDigest(path string, code int, body []byte) string {
+	if code >= 400 {
+		var e struct {
+			Error string `json:"error"`
+		}
+		json.Unmarshal(body, &e)
+		return fmt.Sprintf("%d %s", code, e.Error)
+	}
+	if path == "/api/show" {
+		var sr struct {
+			Capabilities []string `json:"capabilities"`
+			Template     string   `json:"template"`
+		}
+		json.Unmarshal(body, &sr)
+		return fmt.Sprintf("%d capabilities=%v template=%q", code, sr.Capabilities, sr.Template)
+	}
+	return fmt.Sprint(code)
 }
 
 type c15Life struct {
@@ -434,6 +458,27 @@ func c15Run(t *testing.T, c c15Case) c15Obs {
 		}
 	}
 
+	for i, r := range c.Setup {
+		code, b, err := c15Do(client, hs.URL, r)
+		if err != nil || code >= 400 {
+			obs.Setup += fmt.Sprintf("setup %d %s: %d %s %v; ", i, r.Path, code, b, err)
+		}
+	}
+	if c.Baseline {
+		seen := map[string]bool{}
+		for _, w := range c.Workers {
+			for _, r := range w {
+				key := r.Method + " " + r.Path + " " + string(r.Body)
+				if seen[key] {
+					continue
+				}
+				seen[key] = true
+				code, b, _ := c15Do(client, hs.URL, r)
+				obs.Resps = append(obs.Resps, c15Resp{W: -1, Path: r.Method + " " + r.Path, Code: code, Key: key, Digest: c15AnswerDigest(r.Path, code, b)})
+			}
+		}
+	}
+
 	var respMu sync.Mutex
 	rounds := c.Rounds
 	if rounds < 1 {
@@ -460,6 +505,10 @@ func c15Run(t *testing.T, c c15Case) c15Obs {
 					o := c15Resp{W: wi, I: i + round*1000, Path: r.Method + " " + r.Path, Code: code, T0: t0, T1: c15Now()}
 					if err != nil {
 						o.Err = err.Error()
+					}
+					if c.Baseline && err == nil {
+						o.Key = r.Method + " " + r.Path + " " + string(r.Body)
+						o.Digest = c15AnswerDigest(r.Path, code, b)
 					}
 					if r.Path == "/api/ps" && code == 200 {
 						var pr api.ProcessResponse
